@@ -307,6 +307,19 @@ def stepLine (w : World) (toks : List String) : World × String :=
     match userOf signer, coinsTok amt, resolve dst.toList with
     | some u, some cs, some _ => report w (step chain w (.bankSend u dst.toList cs))
     | _, _, _ => bad
+  | ["deploy", signer, kind, send] =>
+    -- MsgAddPackage of an attack package that names the banker's unexported natives, its
+    -- unexported concrete type or fields, or a home-made `realm`: rejected by the type checker
+    -- before the keeper moves anything (a fact about the package's export surface, checked on
+    -- the real code by the harness; the model has nothing to run)
+    match userOf signer, coinsTok send with
+    | some _, some sc =>
+      if ["native", "xnative", "forge", "forgeconv", "fieldset", "realmforge"].contains kind then
+        (w, if !coinsValid sc then "err:basic - -"
+            else if kind == "realmforge" then "err:seal - -"   -- passes go/types, stopped by the `.seal` marker at preprocess
+            else "err:typecheck - -")
+      else bad
+    | _, _ => bad
   | ["restrict", b] =>
     if b == "1" then ({ w with restricted := true }, "ok")
     else if b == "0" then ({ w with restricted := false }, "ok") else bad
